@@ -17,6 +17,7 @@ SIGMA_S = [
     "[//a", "mailto:a@b", "[mailto:a@b", "ftp://a", "irc://a", "news:a", "&amp;", "&#1;", "&#x1;", "&", "<b>",
     "</b>", "<b/>", "<", ">", "<!--c-->", "<!--", "__TOC__", "__", "_", "1", "\t", "\r", EBAD, "\U0001F600",
     "\0", UNIQ, "\x7fUNIQ-a", "\n\n", "\n \n", "https://", "é",
+    "\ufeff",  # (wave 11: a byte order mark is an ordinary character, also as the very first one)
 ]
 
 SIGMA_REWIND = ["\n", " ", "|", "|-", "|+", "!", "{|", "|}", "||", "|!", EBAD, "a"]
